@@ -11,10 +11,25 @@ import (
 	"github.com/scrapli/scrapligo/util"
 )
 
-var escapes = []string{"\x1b[0m", "\x1b[K", "\x1b[?25h", "\x1b[1;32m", "\x1b]0;t\x07"}
+// escape sequences the library is expected to remove entirely (each ends in a letter or BEL, so that nothing that follows can
+// be taken for a part of it): SGR with 0..6 parameters incl. 256-colour and truecolor forms, cursor / erase / mode
+// sequences, character-set selection, keypad modes, OSC titles
+var escapes = []string{"\x1b[0m", "\x1b[K", "\x1b[?25h", "\x1b[1;32m", "\x1b]0;t\x07",
+	"\x1b[38;5;208m", "\x1b[1;37;41m", "\x1b[48;2;10;20;30m", "\x1b[0;1;4;7m", "\x1b[1;2;3;4;5;6m", "\x1b[m", "\x1b[01;34m", "\x1b[;5m",
+	"\x1b[10;20H", "\x1b[24;1H", "\x1b[2J", "\x1b[1A", "\x1b[999;999r", "\x1b[6n", "\x1b[?1049h", "\x1b[?2004h", "\x1b[?7l",
+	"\x1b(B", "\x1b=", "\x1b>", "\x1bM", "\x1b]2;title\x07"}
 
 // concretise maps abstract symbols (spec/alphabet.json) to bytes.
-func concretise(s string, rng *rand.Rand) string {
+func concretise(s string, rng *rand.Rand) string { return concretiseMax(s, rng, 0) }
+
+// concretiseEsc uses escape sequence number k of the catalogue for every E.
+func concretiseEsc(s string, k int) string {
+	return strings.ReplaceAll(concretise(strings.ReplaceAll(s, "E", "\x00"), nil), "\x00", escapes[k%len(escapes)])
+}
+
+// concretiseMax only uses escape sequences of at most max bytes (0: any): a transport read is never smaller than the
+// escape sequence it must deliver whole.
+func concretiseMax(s string, rng *rand.Rand, max int) string {
 	var b strings.Builder
 
 	for _, r := range s {
@@ -27,7 +42,12 @@ func concretise(s string, rng *rand.Rand) string {
 			b.WriteByte('\r')
 		case 'E':
 			if rng != nil {
-				b.WriteString(escapes[rng.Intn(len(escapes))])
+				e := escapes[rng.Intn(len(escapes))]
+				for max > 0 && len(e) > max {
+					e = escapes[rng.Intn(len(escapes))]
+				}
+
+				b.WriteString(e)
 			} else {
 				b.WriteString(escapes[0])
 			}
